@@ -16,7 +16,7 @@ RULE = ("imec(A, I) (shortcut and general path) and dag_to_icpdag(A, I) for ever
         "filtered by 'every target has the same parent set as in A', compared as a set (each once); I-CPDAG = union graph "
         "of that set; I={} gives MEC/CPDAG, I=all gives {A}, I subset J => imec(J) subset imec(I) asserted on the library's "
         "outputs; pdag_to_icpdag: ValueError iff a target has an undirected edge. Non-trivial = I proper non-empty and "
-        "1 < |I-MEC| < |MEC|, or the I-CPDAG directs an edge not incident to a target. Distinct = (graph, I, variant).")
+        "1 < |I-MEC| < |MEC|, or the I-CPDAG directs an edge not incident to a target. Distinct = (graph, I, variant). Also: a 1/16 slice of the 5-node pairs in the quick tier (I-CPDAG only), relabelled graphs, chains obtained from utils.chain_graph and edited by the caller, a rejected call before the call under test.")
 ASSUMPTIONS = [
     "oracle: brute-force class from harness/graphs.py filtered by the targets' parent sets",
     "only targets I that are subsets of the node set are exercised; non-zero pattern of weighted inputs is what matters",
